@@ -101,6 +101,9 @@ def module_text(i, spec):
         txt, pk = edge_text(i, k, j, form)
         t.append(txt)
         peeks += [('m%d:%d %s' % (i, k, a), b) for a, b in pk]
+    if spec.get('fail'):
+        # the body fails after its own imports have completed: the modules it imported stay imported (their bodies never run again)
+        t.append('print("failing m%d")\nimport nomodbody%d\n' % (i, i))
     t.append('late%d = %d\n' % (i, i + 200))
     t.append('def peek%d():\n' % i)
     t.append('    chk%d("m%d own", lambda: x%d + len(lst%d))\n' % (i, i, i, i))
@@ -169,11 +172,12 @@ SHAPES = {
 }
 
 
-def build_case(cid, shape, n, graph, forms, alls, order):
-    """graph: node -> targets; forms: dict (node, k) -> form; alls: dict node -> __all__ variant; order: permutation of main's edge indices"""
+def build_case(cid, shape, n, graph, forms, alls, order, fail=()):
+    """graph: node -> targets; forms: dict (node, k) -> form; alls: dict node -> __all__ variant; order: permutation of main's edge indices;
+    fail: modules whose body raises ImportError after its imports"""
     specs = {}
     for i in range(1, n + 1):
-        specs[i] = {'all': alls.get(i), 'edges': [(j, forms[(i, k)]) for k, j in enumerate(graph.get(i, []))]}
+        specs[i] = {'all': alls.get(i), 'edges': [(j, forms[(i, k)]) for k, j in enumerate(graph.get(i, []))], 'fail': i in fail}
     main_edges = [(graph[0][k], forms[(0, k)]) for k in order]
     files = {'m%d.py' % i: module_text(i, specs[i]) for i in range(1, n + 1)}
     src = main_text(n, specs, main_edges)
@@ -225,9 +229,10 @@ def run(tier, rep):
     cases = []
     feats = {}
 
-    def add(shape, n, graph, forms, alls, order):
+    def add(shape, n, graph, forms, alls, order, fail=()):
         cid = 'g%d' % len(cases)
-        c, f = build_case(cid, shape, n, graph, forms, alls, order)
+        c, f = build_case(cid, shape, n, graph, forms, alls, order, fail)
+        f['failing_body'] = sorted(fail)
         f['cyclic'] = has_cycle(graph)
         # `from m import *` where m lists a not-yet-bound name in __all__ and may be partially initialised (reached through a cycle)
         f['star_partial'] = f['cyclic'] and any(forms[(i, k)] == 'star' and alls.get(j) == 'late' for i in graph for k, j in enumerate(graph[i]))
@@ -293,6 +298,23 @@ def run(tier, rep):
         alls = {i: r.choice(ALLS) for i in range(1, n + 1)}
         add(shape + '+' + kind, n, graph, forms, alls, list(range(len(graph[0]))))
 
+    # (d) a module body that fails (unguarded import of a missing module) AFTER it imported other modules: the importer catches the error,
+    # everything the failed body had imported stays imported exactly once, the failed module itself is imported afresh (and fails again) on re-import
+    nbody = 400 if quick else 12000
+    body_shapes = ['chain2', 'chain3', 'shared', 'diamond', 'cycle2', 'cycle2b', 'diamond-cycle', 'chain4', 'two-paths']
+    for t in range(nbody):
+        shape = body_shapes[t % len(body_shapes)]
+        n, graph0 = SHAPES[shape]
+        graph = {i: list(v) for i, v in graph0.items()}
+        edges = [(i, k) for i in sorted(graph) for k in range(len(graph[i]))]
+        forms = {e: r.choice(FORMS) for e in edges}
+        cand = [i for i in range(1, n + 1) if graph.get(i)] or list(range(1, n + 1))
+        fail = {r.choice(cand)}
+        if r.random() < 0.15:
+            fail.add(r.randrange(1, n + 1))
+        alls = {i: r.choice(ALLS) for i in range(1, n + 1)}
+        add(shape + '+failing-body', n, graph, forms, alls, list(range(len(graph[0]))), fail)
+
     import concurrent.futures
     with concurrent.futures.ThreadPoolExecutor(2) as ex:   # the two observations are independent: overlap them
         fg = ex.submit(run_vrun, 'exec', cases, None, 30)
@@ -354,13 +376,13 @@ def run(tier, rep):
         rep.broke('statement forms never exercised by a case free of recorded defects: %s' % missing)
     rep.rule = ('import graphs over main + <=4 generated modules: %d fixed shapes (single, twice, chains, fan, shared, diamond, self, 2/3-cycles, diamond-cycle, two-paths) x statement form per edge '
                 '(exhaustive where forms^edges is small, else seeded samples) x every order of main\'s imports; seeded random digraphs incl. self loops and cycles; failing imports '
-                '(missing name, missing module caught strictly / loosely) inserted at random positions followed by further imports. '
+                '(missing name, missing module caught strictly / loosely) inserted at random positions followed by further imports; module bodies that fail after having imported other modules, then re-imported. '
                 'distinct non-trivial = distinct (files, main) with >=2 modules or a cycle' % len(SHAPES))
     rep.samples = [{'features': feats[c['id']], 'main_excerpt': c['src'][-400:], 'm1_excerpt': c['files'].get('m1.py', '')[:300]} for c in (cases[5], cases[len(cases) // 2])]
     rep.extra = {'graphs': len(cases), 'exec_lines_observed': nexec_lines, 'cyclic_graphs': sum(1 for f in feats.values() if f['cyclic']),
                  'go_modules': gomod_extra, 'forms_clean_counts': clean_forms, 'shapes': sorted(set(f['shape'] for f in feats.values()))[:40]}
     rep.assumptions = ['CPython 3.11 import semantics for top-level source modules are the reference (no packages, no relative imports, no sys.modules manipulation)',
-                       'only exception types are compared; every import and every cross-module access is wrapped, so no module body fails under the reference (re-import of a failed module is not exercised)']
+                       'only exception types are compared; every import and every cross-module access is wrapped, so no module body fails under the reference except the deliberately failing bodies of part (d), whose ImportError the importer catches']
 
 
 def line_class(line, f, c):
